@@ -23,7 +23,7 @@ import (
 )
 
 const (
-	quietBeforeStuck = 200 * time.Millisecond
+	quietBeforeStuck = 1000 * time.Millisecond // generous: the machine may be heavily loaded
 	defaultHoldMs    = 60
 )
 
